@@ -2622,4 +2622,440 @@ theorem replaceRows_eq_map {β} : ∀ (lines : List Nat) (RA RB : List (List β)
         simp only [List.getD_eq_getElem?_getD]
         rw [List.getElem?_set_ne (fun e => hjl e.symm)]
 
+/-! ### block-diagonal construction from dense data -/
+
+theorem tile_map {α β} (f : α → β) (a : List α) (n : Nat) : (tile a n).map f = tile (a.map f) n := by
+  induction n with
+  | zero => rfl
+  | succ n ih => simp only [tile, List.map_append, ih]
+
+theorem length_tile {α} (a : List α) (n : Nat) : (tile a n).length = n * a.length := by
+  induction n with
+  | zero => simp [tile]
+  | succ n ih => simp only [tile, List.length_append, ih, Nat.succ_mul]; omega
+
+theorem zipWith_add_replicate (X : List Nat) (c : Nat) :
+    List.zipWith (· + ·) X (List.replicate X.length c) = X.map (· + c) := by
+  induction X with
+  | nil => rfl
+  | cons x X ih => simp only [List.length_cons, List.replicate_succ, List.zipWith_cons_cons, List.map_cons, ih]
+
+theorem zipWith_append' {α β γ} (f : α → β → γ) (a1 a2 : List α) (b1 b2 : List β) (h : a1.length = b1.length) :
+    List.zipWith f (a1 ++ a2) (b1 ++ b2) = List.zipWith f a1 b1 ++ List.zipWith f a2 b2 := by
+  induction a1 generalizing b1 with
+  | nil => cases b1 with
+    | nil => rfl
+    | cons _ _ => simp at h
+  | cons x a1 ih => cases b1 with
+    | nil => simp at h
+    | cons y b1 => simp only [List.cons_append, List.zipWith_cons_cons, ih b1 (by simpa using h)]
+
+/-- the index array of `_csx_matrix_from_dense_blocks` for blocks `b0 … b0+nb-1` -/
+theorem dense_indices (bs : Nat) : ∀ (nb b0 : Nat),
+    List.zipWith (· + ·) (tile (tile (List.range bs) bs) nb)
+        (((List.range' b0 nb).flatMap (fun b => List.replicate (bs * bs) b)).map (· * bs))
+      = (List.range' b0 nb).flatMap (fun b => tile (List.range' (b * bs) bs) bs) := by
+  intro nb
+  induction nb with
+  | zero => intro b0; rfl
+  | succ nb ih =>
+    intro b0
+    have hX : (tile (List.range bs) bs).length = bs * bs := by simp [length_tile]
+    rw [tile, List.range'_succ, List.flatMap_cons, List.flatMap_cons, List.map_append,
+      zipWith_append' _ _ _ _ _ (by simp [hX]), ih (b0 + 1)]
+    congr 1
+    rw [List.map_replicate, ← hX, zipWith_add_replicate, tile_map]
+    congr 1
+    rw [List.range'_eq_map_range]
+    apply List.map_congr_left
+    intro k _
+    omega
+
+/-- rows of `nb` dense blocks of size `bs`, first block number `b0`: row-major data, columns
+    `b*bs … b*bs+bs-1` -/
+def dbRows (bs : Nat) : Nat → Nat → List Rat → List (List (Nat × Rat))
+  | _, 0, _ => []
+  | b0, nb + 1, d =>
+    (chunks bs bs (d.take (bs * bs))).map (fun row => (List.range' (b0 * bs) bs).zip row)
+      ++ dbRows bs (b0 + 1) nb (d.drop (bs * bs))
+
+theorem chunks_spec {α} (k : Nat) : ∀ (n : Nat) (l : List α), l.length = n * k →
+    (chunks k n l).flatten = l ∧ (∀ r ∈ chunks k n l, r.length = k) ∧ (chunks k n l).length = n := by
+  intro n
+  induction n with
+  | zero =>
+    intro l h
+    have : l = [] := List.eq_nil_of_length_eq_zero (by simpa using h)
+    subst this
+    refine ⟨rfl, ?_, rfl⟩
+    intro r hr
+    cases hr
+  | succ n ih =>
+    intro l h
+    have hk : k ≤ l.length := by rw [h, Nat.succ_mul]; omega
+    obtain ⟨h1, h2, h3⟩ := ih (l.drop k) (by rw [List.length_drop, h, Nat.succ_mul]; omega)
+    refine ⟨?_, ?_, ?_⟩
+    · simp only [chunks, List.flatten_cons, h1, List.take_append_drop]
+    · intro r hr
+      simp only [chunks, List.mem_cons] at hr
+      rcases hr with rfl | hr
+      · simp [List.length_take]; omega
+      · exact h2 r hr
+    · simp [chunks, h3]
+
+theorem dbRows_spec (bs : Nat) : ∀ (nb b0 : Nat) (d : List Rat), d.length = bs * bs * nb →
+    (dbRows bs b0 nb d).flatten.map (·.2) = d ∧
+    (dbRows bs b0 nb d).flatten.map (·.1) = (List.range' b0 nb).flatMap (fun b => tile (List.range' (b * bs) bs) bs) ∧
+    (∀ r ∈ dbRows bs b0 nb d, r.length = bs) ∧ (dbRows bs b0 nb d).length = nb * bs := by
+  intro nb
+  induction nb with
+  | zero =>
+    intro b0 d h
+    have : d = [] := List.eq_nil_of_length_eq_zero (by simpa using h)
+    subst this
+    refine ⟨rfl, rfl, ?_, by simp [dbRows]⟩
+    intro r hr
+    cases hr
+  | succ nb ih =>
+    intro b0 d h
+    have hlen : bs * bs ≤ d.length := by rw [h, Nat.mul_succ]; omega
+    obtain ⟨i1, i2, i3, i4⟩ := ih (b0 + 1) (d.drop (bs * bs)) (by rw [List.length_drop, h, Nat.mul_succ]; omega)
+    obtain ⟨c1, c2, c3⟩ := chunks_spec bs bs (d.take (bs * bs)) (by rw [List.length_take]; omega)
+    have hz2 : ∀ (rows : List (List Rat)), (∀ r ∈ rows, r.length = bs) →
+        ((rows.map (fun row => (List.range' (b0 * bs) bs).zip row)).flatten).map (·.2) = rows.flatten := by
+      intro rows hr
+      induction rows with
+      | nil => rfl
+      | cons r rows ihr =>
+        simp only [List.map_cons, List.flatten_cons, List.map_append]
+        rw [ihr (fun x hx => hr x (List.mem_cons_of_mem _ hx)),
+          List.map_snd_zip (by simp [hr r List.mem_cons_self])]
+    have hz1 : ∀ (rows : List (List Rat)), (∀ r ∈ rows, r.length = bs) →
+        ((rows.map (fun row => (List.range' (b0 * bs) bs).zip row)).flatten).map (·.1)
+          = tile (List.range' (b0 * bs) bs) rows.length := by
+      intro rows hr
+      induction rows with
+      | nil => rfl
+      | cons r rows ihr =>
+        simp only [List.map_cons, List.flatten_cons, List.map_append, List.length_cons, tile]
+        rw [ihr (fun x hx => hr x (List.mem_cons_of_mem _ hx)),
+          List.map_fst_zip (by simp [hr r List.mem_cons_self])]
+    refine ⟨?_, ?_, ?_, ?_⟩
+    · simp only [dbRows, List.flatten_append, List.map_append, i1, hz2 _ c2, c1, List.take_append_drop]
+    · simp only [dbRows, List.flatten_append, List.map_append, i2, hz1 _ c2, c3, List.range'_succ, List.flatMap_cons]
+    · intro r hr
+      simp only [dbRows, List.mem_append, List.mem_map] at hr
+      rcases hr with ⟨row, hrow, rfl⟩ | hr
+      · simp [List.length_zip, c2 row hrow]
+      · exact i3 r hr
+    · simp only [dbRows, List.length_append, List.length_map, c3, i4, Nat.succ_mul]; omega
+
+theorem ptrsFrom_uniform {β} (c : Nat) : ∀ (rows : List (List β)) (s : Nat), (∀ r ∈ rows, r.length = c) →
+    ptrsFrom s rows = (List.range (rows.length + 1)).map (fun i => s + i * c) := by
+  intro rows
+  induction rows with
+  | nil => intro s _; simp [ptrsFrom]
+  | cons r rows ih =>
+    intro s h
+    rw [ptrsFrom, ih (s + r.length) (fun x hx => h x (List.mem_cons_of_mem _ hx)), h r List.mem_cons_self]
+    simp only [List.length_cons]
+    conv => rhs; rw [List.range_succ_eq_map, List.map_cons, List.map_map]
+    simp only [Nat.zero_mul, Nat.add_zero, List.cons.injEq, true_and]
+    apply List.map_congr_left
+    intro i _
+    simp only [Function.comp, Nat.succ_eq_add_one, Nat.add_mul, Nat.one_mul]
+    omega
+
+theorem fromDenseBlocks_eq_ofRows (data : List Rat) (bs nb : Nat) (hbs : 1 ≤ bs) (hd : data.length = bs * bs * nb) :
+    fromDenseBlocks data bs nb = .ok (ofRows (nb * bs) (dbRows bs 0 nb data)) := by
+  obtain ⟨s1, s2, s3, s4⟩ := dbRows_spec bs nb 0 data hd
+  have h0 : bs ≠ 0 := by omega
+  simp only [fromDenseBlocks, hd, ne_eq, not_true_eq_false, if_false, h0]
+  congr 1
+  simp only [ofRows, s1, s2, s4]
+  congr 1
+  · rw [ptrsFrom_uniform bs _ 0 s3, s4, Nat.mul_comm nb bs]
+    apply List.map_congr_left
+    intro i _
+    omega
+  · by_cases h1 : 1 < bs
+    · rw [if_pos h1]
+      have := dense_indices bs nb 0
+      rw [← List.range_eq_range'] at this
+      rw [← List.range_eq_range']
+      exact this
+    · rw [if_neg h1]
+      have hb : bs = 1 := by omega
+      subst hb
+      rw [← List.range_eq_range']
+      clear s1 s2 s3 s4 hd
+      induction nb with
+      | zero => rfl
+      | succ nb ih =>
+        rw [List.range_succ, List.flatMap_append, ← ih]
+        simp [tile, List.range'_succ]
+
+theorem entrySum_zip_range' (j : Nat) : ∀ (row : List Rat) (s : Nat),
+    entrySum j ((List.range' s row.length).zip row)
+      = if s ≤ j ∧ j < s + row.length then row.getD (j - s) 0 else 0 := by
+  intro row
+  induction row with
+  | nil => intro s; simp [entrySum]
+  | cons x row ih =>
+    intro s
+    simp only [List.length_cons, List.range'_succ, List.zip_cons_cons, entrySum, ih (s + 1)]
+    by_cases h1 : s = j
+    · subst h1
+      have : ¬ (s + 1 ≤ s ∧ s < s + 1 + row.length) := by omega
+      simp only [this, if_false, if_true, Nat.le_refl, true_and, Nat.sub_self, List.getD_cons_zero,
+        show s < s + (row.length + 1) by omega]
+      exact Rat.add_zero x
+    · simp only [h1, if_false]
+      by_cases h2 : s + 1 ≤ j ∧ j < s + 1 + row.length
+      · have h3 : s ≤ j ∧ j < s + (row.length + 1) := by omega
+        have e : j - s = (j - (s + 1)) + 1 := by omega
+        simp only [h2, h3, and_self, if_true, e, List.getD_cons_succ]
+        exact Rat.zero_add _
+      · have h3 : ¬ (s ≤ j ∧ j < s + (row.length + 1)) := by omega
+        simp only [h2, h3, if_false]
+        exact Rat.add_zero 0
+
+theorem denseRow_zip_range (row : List Rat) : denseRow row.length ((List.range row.length).zip row) = row := by
+  apply List.ext_getElem
+  · simp [denseRow]
+  · intro j h1 h2
+    have hj : j < row.length := by simpa [denseRow] using h1
+    simp only [denseRow, List.getElem_map, List.getElem_range]
+    rw [List.range_eq_range', entrySum_zip_range' j row 0]
+    simp [hj, List.getD_eq_getElem?_getD]
+
+theorem shiftRow_zip_range (k n : Nat) (row : List Rat) :
+    shiftRow k ((List.range n).zip row) = (List.range' k n).zip row := by
+  simp only [shiftRow]
+  rw [List.range'_eq_map_range]
+  induction (List.range n) generalizing row with
+  | nil => rfl
+  | cons a l ih => cases row with
+    | nil => rfl
+    | cons x row =>
+      simp only [List.zip_cons_cons, List.map_cons]
+      rw [ih row, Nat.add_comm]
+
+/-- the blocks of `_csx_matrix_from_dense_blocks` as (column count, rows) pairs -/
+def denseBlocks (bs nb : Nat) (data : List Rat) : List (Nat × List (List (Nat × Rat))) :=
+  (chunks (bs * bs) nb data).map (fun d => (bs, (chunks bs bs d).map (fun row => (List.range bs).zip row)))
+
+theorem dbRows_eq_blkRows (bs : Nat) : ∀ (nb b0 : Nat) (data : List Rat),
+    dbRows bs b0 nb data = blkRows (b0 * bs) (denseBlocks bs nb data) := by
+  intro nb
+  induction nb with
+  | zero => intro b0 data; rfl
+  | succ nb ih =>
+    intro b0 data
+    simp only [dbRows, denseBlocks, chunks, List.map_cons, blkRows, List.map_map]
+    rw [ih (b0 + 1) (data.drop (bs * bs))]
+    congr 1
+    · apply List.map_congr_left
+      intro row _
+      simp only [Function.comp, shiftRow_zip_range]
+    · simp only [denseBlocks, Nat.succ_mul]
+
+theorem length_chunks {α} (k : Nat) (n : Nat) (l : List α) : (chunks k n l).length = n := by
+  induction n generalizing l with
+  | zero => rfl
+  | succ n ih => simp [chunks, ih]
+
+theorem chunks_lengths {α} (k : Nat) : ∀ (n : Nat) (l : List α), l.length = n * k → ∀ r ∈ chunks k n l, r.length = k :=
+  fun n l h => (chunks_spec k n l h).2.1
+
+theorem fromDenseBlocks_dense (data : List Rat) (bs nb : Nat) (hd : data.length = bs * bs * nb) :
+    (ofRows (nb * bs) (dbRows bs 0 nb data)).toDense
+      = (blockDiagDense ((chunks (bs * bs) nb data).map (fun d => (chunks bs bs d, bs)))).1 ∧
+    RowsOk (nb * bs) (dbRows bs 0 nb data) := by
+  have hRs := dbRows_eq_blkRows bs nb 0 data
+  rw [Nat.zero_mul] at hRs
+  have hok : ∀ p ∈ denseBlocks bs nb data, RowsOk p.1 p.2 := by
+    intro p hp
+    simp only [denseBlocks, List.mem_map] at hp
+    obtain ⟨d, _, rfl⟩ := hp
+    intro r hr e he
+    obtain ⟨row, _, rfl⟩ := List.mem_map.mp hr
+    have := (List.of_mem_zip he).1
+    exact List.mem_range.mp this
+  have hsum : sumN ((denseBlocks bs nb data).map (·.1)) = nb * bs := by
+    simp only [denseBlocks, List.map_map, Function.comp_def]
+    have : ∀ (l : List (List Rat)), sumN (l.map (fun _ => bs)) = l.length * bs := by
+      intro l; induction l with
+      | nil => simp [sumN]
+      | cons a l ih => simp only [List.map_cons, sumN, ih, List.length_cons, Nat.succ_mul]; omega
+    rw [this, length_chunks]
+  obtain ⟨h1, _⟩ := blkRows_dense (denseBlocks bs nb data) hok
+  rw [hsum] at h1
+  constructor
+  · rw [toDense_ofRows, hRs, h1]
+    congr 2
+    simp only [denseBlocks, List.map_map]
+    apply List.map_congr_left
+    intro d hdm
+    have hdl : d.length = bs * bs := chunks_lengths (bs * bs) nb data (by rw [hd, Nat.mul_comm]) d hdm
+    simp only [Function.comp, Prod.mk.injEq, and_true, List.map_map]
+    have hrows := chunks_lengths bs bs d hdl
+    conv => rhs; rw [← List.map_id (chunks bs bs d)]
+    apply List.map_congr_left
+    intro row hrow
+    have hl := hrows row hrow
+    simp only [Function.comp, id]
+    have := denseRow_zip_range row
+    rw [hl] at this
+    exact this
+  · have := RowsOk_blkRows (denseBlocks bs nb data) 0 hok
+    rw [Nat.zero_add, hsum, ← hRs] at this
+    exact this
+
+/-! ### block_diag_matrix -/
+
+/-- rows of `block_diag_matrix(vals, sz)`: block after block, each block row-major -/
+def bdmRows : Nat → List Nat → List Rat → List (List (Nat × Rat))
+  | _, [], _ => []
+  | off, s :: sz, v =>
+    (chunks s s (v.take (s * s))).map (fun row => (List.range' off s).zip row) ++ bdmRows (off + s) sz (v.drop (s * s))
+
+theorem bdmRows_spec : ∀ (sz : List Nat) (off : Nat) (v : List Rat), v.length = sumSq sz →
+    (bdmRows off sz v).flatten.map (·.2) = v ∧
+    (bdmRows off sz v).flatten.map (·.1) = blockDiagIndexSq off sz ∧
+    (bdmRows off sz v).map (fun r => (r.length : Int))
+      = rldecodeSpec (sz.map (fun (s : Nat) => (s : Int))) (sz.map (fun (s : Nat) => (s : Int))) ∧
+    (bdmRows off sz v).length = sumN sz := by
+  intro sz
+  induction sz with
+  | nil =>
+    intro off v h
+    have : v = [] := List.eq_nil_of_length_eq_zero (by simpa [sumSq] using h)
+    subst this
+    exact ⟨rfl, rfl, rfl, rfl⟩
+  | cons s sz ih =>
+    intro off v h
+    simp only [sumSq] at h
+    obtain ⟨i1, i2, i3, i4⟩ := ih (off + s) (v.drop (s * s)) (by rw [List.length_drop, h]; omega)
+    obtain ⟨c1, c2, c3⟩ := chunks_spec s s (v.take (s * s)) (by rw [List.length_take]; omega)
+    have hz2 : ∀ (rows : List (List Rat)), (∀ r ∈ rows, r.length = s) →
+        ((rows.map (fun row => (List.range' off s).zip row)).flatten).map (·.2) = rows.flatten := by
+      intro rows hr
+      induction rows with
+      | nil => rfl
+      | cons r rows ihr =>
+        simp only [List.map_cons, List.flatten_cons, List.map_append]
+        rw [ihr (fun x hx => hr x (List.mem_cons_of_mem _ hx)),
+          List.map_snd_zip (by simp [hr r List.mem_cons_self])]
+    have hz1 : ∀ (rows : List (List Rat)), (∀ r ∈ rows, r.length = s) →
+        ((rows.map (fun row => (List.range' off s).zip row)).flatten).map (·.1)
+          = tile (List.range' off s) rows.length := by
+      intro rows hr
+      induction rows with
+      | nil => rfl
+      | cons r rows ihr =>
+        simp only [List.map_cons, List.flatten_cons, List.map_append, List.length_cons, tile]
+        rw [ihr (fun x hx => hr x (List.mem_cons_of_mem _ hx)),
+          List.map_fst_zip (by simp [hr r List.mem_cons_self])]
+    have hz3 : ∀ (rows : List (List Rat)), (∀ r ∈ rows, r.length = s) →
+        (rows.map (fun row => (List.range' off s).zip row)).map (fun r => (r.length : Int))
+          = List.replicate rows.length (s : Int) := by
+      intro rows hr
+      rw [List.eq_replicate_iff]
+      refine ⟨by simp, ?_⟩
+      intro b hb
+      simp only [List.map_map, List.mem_map] at hb
+      obtain ⟨row, hrow, rfl⟩ := hb
+      simp [List.length_zip, hr row hrow]
+    refine ⟨?_, ?_, ?_, ?_⟩
+    · simp only [bdmRows, List.flatten_append, List.map_append, i1, hz2 _ c2, c1, List.take_append_drop]
+    · simp only [bdmRows, List.flatten_append, List.map_append, i2, hz1 _ c2, c3, blockDiagIndexSq]
+    · simp only [bdmRows, List.map_append, i3, hz3 _ c2, c3, List.map_cons, rldecodeSpec, Int.toNat_natCast]
+    · simp only [bdmRows, List.length_append, List.length_map, c3, i4, sumN]
+
+theorem bdmRows_eq_blkRows : ∀ (sz : List Nat) (off : Nat) (v : List Rat),
+    bdmRows off sz v = blkRows off ((varBlocks sz v).map (fun p =>
+      (p.2, (chunks p.2 p.2 p.1).map (fun row => (List.range p.2).zip row)))) := by
+  intro sz
+  induction sz with
+  | nil => intro off v; rfl
+  | cons s sz ih =>
+    intro off v
+    simp only [bdmRows, varBlocks, List.map_cons, blkRows, List.map_map, ih]
+    congr 1
+    apply List.map_congr_left
+    intro row _
+    simp only [Function.comp, shiftRow_zip_range]
+
+theorem varBlocks_sizes : ∀ (sz : List Nat) (v : List Rat), v.length = sumSq sz →
+    (∀ p ∈ varBlocks sz v, p.1.length = p.2 * p.2) ∧ sumN ((varBlocks sz v).map (·.2)) = sumN sz := by
+  intro sz
+  induction sz with
+  | nil =>
+    intro v _
+    refine ⟨?_, rfl⟩
+    intro p hp
+    cases hp
+  | cons s sz ih =>
+    intro v h
+    simp only [sumSq] at h
+    obtain ⟨i1, i2⟩ := ih (v.drop (s * s)) (by rw [List.length_drop, h]; omega)
+    constructor
+    · intro p hp
+      simp only [varBlocks, List.mem_cons] at hp
+      rcases hp with rfl | hp
+      · simp only [List.length_take]; omega
+      · exact i1 p hp
+    · simp only [varBlocks, List.map_cons, sumN, i2]
+
+theorem blockDiagMatrix_eq (vals : List Rat) (sz : List Nat) (hv : vals.length = sumSq sz) :
+    blockDiagMatrix vals sz = .ok (ofRows (sumN sz) (bdmRows 0 sz vals)) ∧
+    (ofRows (sumN sz) (bdmRows 0 sz vals)).toDense
+      = (blockDiagDense ((varBlocks sz vals).map (fun p => (chunks p.2 p.2 p.1, p.2)))).1 ∧
+    RowsOk (sumN sz) (bdmRows 0 sz vals) := by
+  obtain ⟨s1, s2, s3, s4⟩ := bdmRows_spec sz 0 vals hv
+  obtain ⟨v1, v2⟩ := varBlocks_sizes sz vals hv
+  let Rs := (varBlocks sz vals).map (fun p => (p.2, (chunks p.2 p.2 p.1).map (fun row => (List.range p.2).zip row)))
+  have hRs : bdmRows 0 sz vals = blkRows 0 Rs := bdmRows_eq_blkRows sz 0 vals
+  have hok : ∀ p ∈ Rs, RowsOk p.1 p.2 := by
+    intro p hp
+    simp only [Rs, List.mem_map] at hp
+    obtain ⟨q, _, rfl⟩ := hp
+    intro r hr e he
+    obtain ⟨row, _, rfl⟩ := List.mem_map.mp hr
+    exact List.mem_range.mp (List.of_mem_zip he).1
+  have hsum : sumN (Rs.map (·.1)) = sumN sz := by
+    simp only [Rs, List.map_map, Function.comp_def]
+    exact v2
+  refine ⟨?_, ?_, ?_⟩
+  · simp only [blockDiagMatrix, bind, Except.bind, rldecode_eq_repeat' _ _ (Nat.le_refl _), pure, Except.pure]
+    congr 1
+    simp only [ofRows, s1, s2, s4]
+    congr 1
+    rw [← s3, List.map_cons, cumsum]
+    have := cumsumFrom_lengths (bdmRows 0 sz vals) 0
+    simp only [Int.natCast_zero] at this
+    rw [this, Int.toNat_zero, ← ptrsFrom_eq_cons]
+  · obtain ⟨h1, _⟩ := blkRows_dense Rs hok
+    rw [hsum] at h1
+    rw [toDense_ofRows, hRs, h1]
+    congr 2
+    simp only [Rs, List.map_map]
+    apply List.map_congr_left
+    intro p hp
+    have hpl := v1 p hp
+    simp only [Function.comp, Prod.mk.injEq, and_true, List.map_map]
+    have hrows := chunks_lengths p.2 p.2 p.1 hpl
+    conv => rhs; rw [← List.map_id (chunks p.2 p.2 p.1)]
+    apply List.map_congr_left
+    intro row hrow
+    have hl := hrows row hrow
+    simp only [Function.comp, id]
+    have := denseRow_zip_range row
+    rw [hl] at this
+    exact this
+  · have := RowsOk_blkRows Rs 0 hok
+    rw [Nat.zero_add, hsum, ← hRs] at this
+    exact this
+
 end PorepyVerif.C35
